@@ -216,8 +216,18 @@ def run(cx):
         cx.ob('ORDER', 'unique_edges:sorted', match('(mut slice::sort . (call Iterator::collect (call HashMap::into_iter _)))', r) is not None,
               'the vector collected from hash iteration is sorted before it is returned (hash order cannot leak into edge indices)', where=b.file, found=r)
         ks = [cx.arg(s, 1) for s in b.calls('HashMap::entry')]
-        cx.ob('EXPR', 'unique_edges:key', len(ks) == 1 and match('(call *edge_key (itervar (param all_edges)))', ks[0]) is not None,
-              'edges are counted under their symmetric key')
+        okk = len(ks) == 1 and match('(call *edge_key (itervar (param all_edges)))', ks[0]) is not None
+        if not ks:
+            # the same count written as all_edges.iter().map(edge_key).fold(HashMap::new(), |counts, key| { *counts.entry(key).or_insert(0) += 1; counts })
+            fm = find('(call *::fold (call Iterator::map (param all_edges) (fn *edge_key)) (call HashMap::new) (closure *))', r)
+            for hit in ([fm[0]] if fm else ()):
+                clo = [x for x in subterms(hit) if x[0] == 'closure']
+                cl = cx.closure_body(clo[0][1]) if clo else None
+                if cl is not None:
+                    ent = cl.calls('HashMap::entry')
+                    okk = len(ent) == 1 and match('(param 2)', cx.arg(ent[0], 0)) is not None and match('(param 3)', cx.arg(ent[0], 1)) is not None and \
+                        match('(update (param 2) _ (add (call Entry::or_insert (call HashMap::entry (param 2) (param 3)) 0) 1))', cx.retval(cl)) is not None
+        cx.ob('EXPR', 'unique_edges:key', okk, 'edges are counted under their symmetric key')
 
     # ---------------------------------------------------------------- INSERT
     insert_rule(cx, f'{ED}::identify_edges', 3)
